@@ -55,7 +55,7 @@ def perform(ctx, binary, scs, tag="c03"):
         for r in results:
             died = bool(r["exit2"])
             f.write(json.dumps({"run": r["run"], "lost": r["lost"] or [], "seen": r["streams_seen_before_kill"] or [],
-                                "saved": r["streams_saved_at_kill"] or [], "killed": bool(r["killed"]), "died": died,
+                                "saved": r["streams_saved_at_kill"] or [], "beyond": r.get("lost_beyond_seek") or [], "killed": bool(r["killed"]), "died": died,
                                 "exit": (r["exit2"] + " " + r["stderr"][-300:]) if died else "",
                                 "truncate": bool(by_run[r["run"]]["truncate"])}) + "\n")
             shapes.add(json.dumps([by_run[r["run"]]["streams"], [h for h in by_run[r["run"]]["hist"] if h[0] in ("kill", "stop", "commit", "deliver", "truncate")],
@@ -320,6 +320,16 @@ def run(ctx):
                 hist += [["append", j], ["act", j], ["deliver", j], ["commit", j]]
         hist += [["save", 0], ["kill", 0], ["restart", 0], ["open", 0]]
         scs.append(scen(k, "symlink-rotation-%d" % k, ["a"] * j, hist, True, symlink=True))
+        k += 1
+    # the default stream is saved far ahead, a named stream far behind (the restarted reader starts there), and a line of a THIRD stream
+    # that has no offset of its own yet lies in between, unacknowledged at the kill: it is read again and must come out
+    for i in range(4 if thorough else 2):
+        pre = ctx.rng.randint(0, 1)
+        streams = ["a"] * (1 + pre) + ["c"] + ["b"] + ["a"] * ctx.rng.randint(0, 1)
+        ia, ic, ib = 1, 2 + pre, 3 + pre
+        hist = [["append", j + 1] for j in range(len(streams))]
+        hist += [["act", ia], ["deliver", ia], ["commit", ia], ["act", ib], ["deliver", ib], ["commit", ib], ["save", 0], ["kill", 0], ["restart", 0], ["open", 0]]
+        scs.append(scen(k, "default-stream-ahead-%d" % k, streams, hist, True, nofield="b"))
         k += 1
     # a complete line of exactly max_event_size bytes (newline included) is an ordinary line: delivered, also across a kill
     for i in range(4 if thorough else 2):
